@@ -186,13 +186,15 @@ PROPS = {
             dict(run=B + "VerifC17Prefix", name="C17Prefix_cvc5", thorough=dict(extra=8), tiers=["thorough"], solver="cvc5", validate=0),
             dict(run=B + "VerifC17Expiry", quick=dict(ops=1, keys=3, val9=0, between=1), thorough=dict(ops=2, keys=3, val9=0, between=1),
                  covers=["event-expired", "old-event-kept-ttl-not-elapsed", "young-event-kept", "done"]),
+            dict(run=B + "VerifC17Expiry", name="C17_expiryfault", quick=dict(ops=1, keys=1, val9=0, between=0, expiryfaults=1), thorough=dict(ops=2, keys=1, val9=0, between=0, expiryfaults=1),
+                 covers=["expiry-delete-failed", "done"]),
             dict(run=B + "VerifC17TTLWrites", quick=dict(updates=1), thorough=dict(updates=2), covers=["ttl-record", "done"]),
             dict(run=B + "VerifC17Race", quick=dict(preempt=2, native_tick_ms=1300), thorough=dict(preempt=3, native_tick_ms=1300), covers=["update-won", "expiry-won", "done"], stress=5),
             dict(run=B + "VerifC17TwoCompactions", quick=dict(preempt=1, native_tick_ms=1300), thorough=dict(preempt=2, native_tick_ms=1300), covers=["old-event-expired", "done"], stress=5),
         ],
-        bounds=dict(quick="keys of 10..14 fully symbolic bytes (> '$') for the TTL decision; expiry: 1-write history over {an Event key, a key that merely contains /events/, a plain key}, compaction mark, 1 further write, symbolic elapsed time, second compaction on an engine without native TTL; on an engine with native TTL a create / update / optional delete with symbolic lease fields on each of the three keys: only records of keys under <prefix>/events/ carry a TTL; the expiry scan racing an update of the Event (interleaved at the store operations, <= 2 scheduling delays); two compaction requests at the same time after an old mark expired, with a young Event present (<= 1 scheduling deviation, gate at the log line between reading and removing the oldest mark)",
+        bounds=dict(quick="keys of 10..14 fully symbolic bytes (> '$') for the TTL decision; expiry: 1-write history over {an Event key, a key that merely contains /events/, a plain key}, compaction mark, 1 further write, symbolic elapsed time, second compaction on an engine without native TTL — also with one delete of the expiry pass failing (an Event is then kept whole or removed whole, never left with an index and no versions); on an engine with native TTL a create / update / optional delete with symbolic lease fields on each of the three keys: only records of keys under <prefix>/events/ carry a TTL; the expiry scan racing an update of the Event (interleaved at the store operations, <= 2 scheduling delays); two compaction requests at the same time after an old mark expired, with a young Event present (<= 1 scheduling deviation, gate at the log line between reading and removing the oldest mark)",
                     thorough="keys of 10..18 bytes (also decided by z3 5.1 and cvc5: the explorations must agree); 2-write histories; 3 deviations for the update race, 2 for the concurrent compactions"),
-        outside="expiry inside engines with native TTL (memkv AfterFunc, Badger entry TTL: an Event updated there keeps only its creation's TTL) beyond which records are written with a TTL at all; faults during expiry; more than one compaction mark",
+        outside="expiry inside engines with native TTL (memkv AfterFunc, Badger entry TTL: an Event updated there keeps only its creation's TTL) beyond which records are written with a TTL at all; more than one failed delete during expiry, a compactor that dies in the middle of an expiry; more than one compaction mark",
     ),
     "C18": dict(
         harnesses=[
